@@ -19,6 +19,13 @@ func (h *latestSyncHandler) setLatestSync(p peer.ID, c cid.Cid) {
 	h.m.Store(p, c)
 }
 
+// setLatestSyncIfUnset stores c as the latest sync of p unless one is already
+// stored, and returns the one that is stored afterwards.
+func (h *latestSyncHandler) setLatestSyncIfUnset(p peer.ID, c cid.Cid) cid.Cid {
+	v, _ := h.m.LoadOrStore(p, c)
+	return v.(cid.Cid)
+}
+
 func (h *latestSyncHandler) getLatestSync(p peer.ID) (cid.Cid, bool) {
 	v, ok := h.m.Load(p)
 	if !ok {
